@@ -15,7 +15,7 @@ import (
 func init() { props["C19"] = runC19 }
 
 func runC19(res *Result, d *Driver, tier string, seed uint64) {
-	res.Rule = "real SOCK_SEQPACKET socketpairs through pkg/unixsocket: interleaved send/receive histories with payload sizes 0,1,..,buffer±1,64 KiB, descriptor counts 0,1,2,16,252,253,254, with/without credentials (own and, as root, other), receive buffers smaller/equal/larger than the message; compared per operation with Model.Socket (driver): bytes, identity (dev,ino) and FD_CLOEXEC of received descriptors, Ucred, error-or-delivery, and the process' descriptor count after every rejected message; " +
+	res.Rule = "real SOCK_SEQPACKET socketpairs through pkg/unixsocket: interleaved send/receive histories with payload sizes 0,1,..,buffer±1,64 KiB, descriptor counts 0,1,2,16,252,253,254, with/without credentials (own and, as root, other), receive buffers smaller/equal/larger than the message; compared per operation with Model.Socket (driver): bytes, identity (dev,ino) and FD_CLOEXEC of received descriptors, Ucred, error-or-delivery, and the process' descriptor count after every rejected message; receives with a full descriptor table (0, 1, n-1, n free slots for n = 1,2,5,16,100 descriptors): rejected unless all fit, nothing leaked; " +
 		"gob-framed layer (container.socket through the verif hook): typed messages with first use of a type at every position, payloads around the 32 KiB cap. non-trivial = message with descriptors/credentials or not fitting the buffer; distinct = (history prefix, op)."
 	rng := NewRng(seed, "C19", 1)
 	n := 60
@@ -135,6 +135,95 @@ func runC19(res *Result, d *Driver, tier string, seed uint64) {
 		}
 		a.Close()
 		b.Close()
+	}
+
+	// ---- the receiving process cannot install all descriptors (descriptor table full): the kernel hands over a
+	// prefix and flags the control data as cut; the message must be rejected, never delivered with fewer descriptors ----
+	{
+		var oldLim syscall.Rlimit
+		syscall.Getrlimit(syscall.RLIMIT_NOFILE, &oldLim)
+		hi := 0
+		ents, _ := os.ReadDir("/proc/self/fd")
+		for _, e := range ents {
+			var k int
+			fmt.Sscan(e.Name(), &k)
+			if k > hi {
+				hi = k
+			}
+		}
+		reps := 1
+		if tier == "thorough" {
+			reps = 20
+		}
+		for rep := 0; rep < reps && hi < 200; rep++ {
+			for _, nf := range []int{1, 2, 5, 16, 100} {
+				for _, free := range []int{0, 1, nf - 1, nf} {
+					if free < 0 || (free == 1 && nf == 1) || (free == nf-1 && nf <= 2) {
+						continue
+					}
+					a, b, err := unixsocket.NewSocketPair()
+					if err != nil {
+						fatal("socketpair: %v", err)
+					}
+					var fds []int
+					for i := 0; i < nf; i++ {
+						fds = append(fds, int(devnull.Fd()))
+					}
+					payload := []byte("table-full")
+					if err := a.SendMsg(payload, unixsocket.Msg{Fds: fds}); err != nil {
+						fatal("send: %v", err)
+					}
+					base := fdCount(os.Getpid())
+					lim := oldLim
+					lim.Cur = 512
+					syscall.Setrlimit(syscall.RLIMIT_NOFILE, &lim)
+					var fill []int
+					for {
+						x, e := syscall.Dup(int(devnull.Fd()))
+						if e != nil {
+							break
+						}
+						fill = append(fill, x)
+					}
+					for i := 0; i < free && len(fill) > 0; i++ {
+						syscall.Close(fill[len(fill)-1])
+						fill = fill[:len(fill)-1]
+					}
+					buf := make([]byte, 64)
+					b.SetReadDeadline(time.Now().Add(500 * time.Millisecond))
+					got, msg, rerr := b.RecvMsg(buf)
+					for _, x := range fill {
+						syscall.Close(x)
+					}
+					syscall.Setrlimit(syscall.RLIMIT_NOFILE, &oldLim)
+					key := fmt.Sprintf("send(%d bytes,%d fds) recv with %d free descriptor slots", len(payload), nf, free)
+					res.Case(key+itoa(rep), true, "table-full")
+					res.Traces++
+					var bad string
+					switch {
+					case rerr != nil && free >= nf:
+						bad = "rejected although every descriptor could be installed: " + rerr.Error()
+					case rerr == nil && len(msg.Fds) != nf:
+						bad = fmt.Sprintf("delivered without error with %d of %d descriptors (%d payload bytes)", len(msg.Fds), nf, got)
+					case rerr == nil && free < nf:
+						bad = "harness: table was not full"
+					}
+					for _, x := range msg.Fds {
+						syscall.Close(x)
+					}
+					if bad == "" && !settle(func() bool { return fdCount(os.Getpid()) <= base }) {
+						bad = fmt.Sprintf("descriptors of the rejected message leaked: count %d, before the receive %d", fdCount(os.Getpid()), base)
+					}
+					if bad != "" && !strings.HasPrefix(bad, "harness") {
+						res.Mismatch(Mismatch{Kind: "oracle", What: "a message whose descriptors cannot all be installed is rejected, not delivered truncated (C19)", Input: key, Impl: bad, Oracle: "violates"})
+					} else if bad != "" {
+						res.Note("%s: %s", key, bad)
+					}
+					a.Close()
+					b.Close()
+				}
+			}
+		}
 	}
 
 	// ---- gob-framed layer ----
